@@ -266,6 +266,8 @@ class HypergraphAdapter(H.Adapter):
     def probe_of_key(self, key):
         return tuple(sorted(key))
 
+    other_containers = True
+
     def batch_dup_token(self, rec):
         return tuple(rec)
 
@@ -296,7 +298,8 @@ class HypergraphAdapter(H.Adapter):
             kw["weight"] = w
         if meta is not None:
             kw["metadata"] = meta
-        h.add_edge(tuple(e), **kw)
+        conv = {"list": list, "frozenset": frozenset}.get(self.container, tuple)
+        h.add_edge(conv(e), **kw)
 
     def r_add_edges(self, h, es, ws, metas):
         kw = {}
